@@ -66,6 +66,9 @@ pub fn probes_for(sem: &Decl, type_name: &str, inputs: &[Val]) -> Vec<(String, S
         } else {
             (format!("format!(\"Ok({{:?}})\", {type_name}::new({e}).into_inner())"), format!("Ok({})", val_dbg(&refsem::construct(sem, raw).unwrap())))
         };
+        // a panic inside the constructor (e.g. a partial user predicate reached out of order) is an observation,
+        // not a crash of the probe binary
+        let code = format!("match ::std::panic::catch_unwind(|| {code}) {{ Ok(s) => s, Err(_) => \"PANIC\".to_string() }}");
         out.push((code, format!("{} => {}", val_dbg(raw), exp)));
     }
     out
@@ -274,9 +277,9 @@ fn neighbourhood(inner: Inner, centers: &[Val]) -> Vec<Val> {
     out
 }
 
-pub const ALL_FORMS: [Form; 26] = [
+pub const ALL_FORMS: [Form; 28] = [
     Form::Lit, Form::Under, Form::IntForFloat, Form::Exp, Form::Suffix, Form::Const, Form::NegConst, Form::NegSpConst, Form::NegParen, Form::Paren, Form::Plus1, Form::OnePlus, Form::Minus1, Form::Shl, Form::AsCast, Form::TyExtreme, Form::FnCall, Form::Block, Form::NegPlus, Form::ModPath, Form::Mul2,
-    Form::IfExpr, Form::NotLit, Form::NotConst, Form::NegLitParen, Form::DoubleNeg,
+    Form::IfExpr, Form::NotLit, Form::NotConst, Form::NegLitParen, Form::DoubleNeg, Form::ShadowMax, Form::ShadowMin,
 ];
 
 pub fn c02_cases(tier: Tier) -> Vec<Case> {
@@ -519,6 +522,42 @@ pub fn c02_cases(tier: Tier) -> Vec<Case> {
         if let Some(mut c) = decl_case(&d, "accept", "rule-order") {
             c.probes = probes_for(&d, &d.name, &inputs);
             cases.push(c);
+        }
+    }
+    // (e) every written sanitizer, at its written position: all string sanitizer lists with two or more steps
+    // (every order of trim / lowercase|uppercase / a custom step), probed on all strings up to length 3 over an
+    // alphabet in which each step has something to do and the steps do not commute (' ', 'x' for strip_x, 'A',
+    // 'ß', ZERO WIDTH SPACE: not whitespace, so "\u{200b} x" tells `trim` before from `trim` after strip_x)
+    let alpha = [' ', 'x', 'A', 'ß', '\u{200b}'];
+    let mut probes_in: Vec<Val> = vec![Val::s("")];
+    let mut layer: Vec<String> = vec![String::new()];
+    for _ in 0..3 {
+        let mut next = vec![];
+        for w in &layer {
+            for c in alpha {
+                let mut t = w.clone();
+                t.push(c);
+                next.push(t);
+            }
+        }
+        probes_in.extend(next.iter().map(|t| Val::S(t.clone())));
+        layer = next;
+    }
+    for (k, sl) in ntcore::grammar::string_sanlists().into_iter().enumerate() {
+        if sl.len() < 2 || (tier == Tier::Quick && sl.len() == 2 && k % 2 == 1) {
+            continue;
+        }
+        for with_validation in [false, true] {
+            let mut d = Decl::new(&format!("So{k}{}", if with_validation { "v" } else { "" }), Inner::Str);
+            d.sans = sl.clone();
+            if with_validation {
+                d.validation = Validation::Std(vec![Vd::LenCharMax(Bound::lit(Val::U(2)))]);
+            }
+            d.derives = vec![Tr::Debug];
+            if let Some(mut c) = decl_case(&d, "accept", "sanitizer-order") {
+                c.probes = probes_for(&d, &d.name, &probes_in);
+                cases.push(c);
+            }
         }
     }
     let _ = n;
@@ -882,14 +921,36 @@ pub fn c08_test_cases(_tier: Tier) -> Vec<Case> {
         }
     }
     for (mn, mx) in [(5, 3), (3, 3), (0, 0), (1, 0), (2, 10)] {
-        n += 1;
-        let name = format!("Xb{n}");
-        let extra = format!("pub const MN: usize = {mn};\npub const MX: usize = {mx};");
-        let attr = "validate(len_char_min = MN, len_char_max = MX)";
-        let mut c = raw_case("decl", "accept", "expression-bounds", attr, &format!("pub struct {name}(String);"), &extra);
-        c.text = format!("{extra} #[nutype({attr})] pub struct {name}(String);");
-        c.tests.push(("should_have_consistent_len_char_boundaries".into(), mn > mx));
-        cases.push(c);
+        // both bounds constants, and each mix of one literal with one constant (the macro can evaluate neither pair)
+        for (lmn, lmx) in [(false, false), (true, false), (false, true)] {
+            n += 1;
+            let name = format!("Xb{n}");
+            let extra = format!("pub const MN: usize = {mn};\npub const MX: usize = {mx};");
+            let attr = format!("validate(len_char_min = {}, len_char_max = {})", if lmn { mn.to_string() } else { "MN".into() }, if lmx { mx.to_string() } else { "MX".into() });
+            let mut c = raw_case("decl", "accept", "expression-bounds", &attr, &format!("pub struct {name}(String);"), &extra);
+            c.text = format!("{extra} #[nutype({attr})] pub struct {name}(String);");
+            c.tests.push(("should_have_consistent_len_char_boundaries".into(), mn > mx));
+            cases.push(c);
+        }
+    }
+    // numeric: one literal + one constant
+    for (ty, lit) in [("i16", false), ("f64", true)] {
+        let l = |x: i32| if lit { format!("{x}.0") } else { format!("{x}") };
+        for (lo, up) in [(5, 4), (5, 5), (5, 6), (-3, -4)] {
+            for lit_lower in [true, false] {
+                for (lk, lx, uk, ux) in [("greater", true, "less", true), ("greater_or_equal", false, "less_or_equal", false), ("greater", true, "less_or_equal", false)] {
+                    n += 1;
+                    let name = format!("Xb{n}");
+                    let contradictory = lo > up || (lo == up && (lx || ux));
+                    let extra = format!("pub const LO: {ty} = {};\npub const UP: {ty} = {};", l(lo), l(up));
+                    let attr = format!("validate({lk} = {}, {uk} = {})", if lit_lower { l(lo) } else { "LO".into() }, if lit_lower { "UP".to_string() } else { l(up) });
+                    let mut c = raw_case("decl", "accept", "expression-bounds", &attr, &format!("pub struct {name}({ty});"), &extra);
+                    c.text = format!("{extra} #[nutype({attr})] pub struct {name}({ty});");
+                    c.tests.push(("should_have_consistent_lower_and_upper_boundaries".into(), contradictory));
+                    cases.push(c);
+                }
+            }
+        }
     }
     // defaults: valid / invalid / valid only after sanitisation
     let defaults: Vec<(&str, &str, &str, bool)> = vec![
@@ -1165,10 +1226,10 @@ pub fn c15_cases(tier: Tier) -> Vec<Case> {
     let helpers = C15_HELPERS;
     let families: Vec<(&str, Vec<&str>, Vec<&str>)> = vec![
         // (type, guards, traits)
-        ("i32", vec!["", "validate(greater = 1, less = 100), ", "sanitize(with = clamp_i), validate(predicate = even), ", "validate(with = check_i, error = MyErr), ", "sanitize(with = c_clamp_i), validate(greater_or_equal = 10, predicate = c_even), const_fn, "], vec!["Debug", "Clone", "Copy", "PartialEq", "Eq", "PartialOrd", "Ord", "FromStr", "AsRef", "Deref", "TryFrom", "Into", "Hash", "Borrow", "Display", "Default", "Serialize", "Deserialize", "Arbitrary"]),
+        ("i32", vec!["", "validate(greater = 1), ", "validate(less_or_equal = 100), ", "validate(greater = 1, less = 100), ", "sanitize(with = clamp_i), validate(predicate = even), ", "validate(with = check_i, error = MyErr), ", "sanitize(with = c_clamp_i), validate(greater_or_equal = 10, predicate = c_even), const_fn, "], vec!["Debug", "Clone", "Copy", "PartialEq", "Eq", "PartialOrd", "Ord", "FromStr", "AsRef", "Deref", "TryFrom", "Into", "Hash", "Borrow", "Display", "Default", "Serialize", "Deserialize", "Arbitrary"]),
         ("u64", vec!["validate(less_or_equal = 7), "], vec!["Debug", "FromStr", "TryFrom", "Display", "Serialize", "Deserialize", "Arbitrary", "Hash"]),
-        ("f64", vec!["", "validate(finite, greater = 0.0), ", "sanitize(with = abs_f), validate(predicate = small), ", "validate(with = check_f, error = MyErr), "], vec!["Debug", "Clone", "Copy", "PartialEq", "Eq", "PartialOrd", "Ord", "FromStr", "AsRef", "Deref", "TryFrom", "Into", "Borrow", "Display", "Default", "Serialize", "Deserialize", "Arbitrary"]),
-        ("f32", vec!["validate(finite), "], vec!["Debug", "PartialEq", "Eq", "PartialOrd", "Ord", "FromStr", "Display", "Arbitrary", "Serialize", "Deserialize"]),
+        ("f64", vec!["", "validate(greater_or_equal = 0.0), ", "validate(less = 100.0), ", "validate(greater = -1.0, less_or_equal = 1.0), ", "validate(finite, greater_or_equal = 0.0, less = 1.0), ", "validate(finite, greater = 0.0), ", "sanitize(with = abs_f), validate(predicate = small), ", "validate(with = check_f, error = MyErr), "], vec!["Debug", "Clone", "Copy", "PartialEq", "Eq", "PartialOrd", "Ord", "FromStr", "AsRef", "Deref", "TryFrom", "Into", "Borrow", "Display", "Default", "Serialize", "Deserialize", "Arbitrary"]),
+        ("f32", vec!["validate(finite), ", "validate(less_or_equal = 1.0), ", "validate(greater = 0.0), "], vec!["Debug", "PartialEq", "Eq", "PartialOrd", "Ord", "FromStr", "Display", "Arbitrary", "Serialize", "Deserialize"]),
         ("Pt", vec!["", "validate(predicate = on_diag), "], vec!["Debug", "Clone", "Copy", "PartialEq", "Eq", "PartialOrd", "Ord", "FromStr", "AsRef", "Deref", "TryFrom", "Into", "Hash", "Borrow", "Display", "Default"]),
         ("[u8; 4]", vec!["", "validate(predicate = |a| a[0] == 0), "], vec!["Debug", "Clone", "Copy", "PartialEq", "Eq", "AsRef", "Deref", "TryFrom", "Into", "Hash", "Borrow", "Default", "IntoIterator", "Serialize", "Deserialize", "Arbitrary"]),
     ];
